@@ -76,6 +76,9 @@ type Tree struct {
 	// CountOf gives the number of entries BreadthSearch reports.
 	CountOf func(start ID, arg string) int
 
+	// Absent, when set, makes Navigate fail for a path that names a list entry by a key value for which it returns true.
+	Absent func(keyValue string) bool
+
 	Trace   []Call
 	FaultAt int // 1-based index of the callback that fails; 0 = none
 	calls   int
@@ -177,6 +180,15 @@ func (e *Entry) Navigate(p *sdcpb.Path) (xpath.Entry, error) {
 		return nil, err
 	}
 	id, err := Resolve(e.Id, p)
+	if err == nil && e.T.Absent != nil {
+		for _, pe := range p.GetElem() {
+			for _, v := range pe.GetKey() {
+				if e.T.Absent(v) {
+					err = fmt.Errorf("data tree: no entry %s[...=%s]", pe.GetName(), v)
+				}
+			}
+		}
+	}
 	if err != nil {
 		c.Err = err.Error()
 		e.T.rec(c)
